@@ -149,6 +149,10 @@ func (d *DHCPv6) SerializeTo(b gopacket.SerializeBuffer, opts gopacket.Serialize
 	if err != nil {
 		return err
 	}
+	// addresses and a transaction id that are nil or short leave their octets zero
+	for i := range data {
+		data[i] = 0
+	}
 
 	offset := 0
 	data[0] = byte(d.MsgType)
